@@ -1567,6 +1567,14 @@ fn c13_case(mi: usize, m0: &Message, atoms: &[Atom], accounts: &Vec<Account>, no
                 return;
             }
         }
+        // jurisdiction: the library reports the earliest defect, on its own, at that defect's rank
+        // (whether each single defect is caught at all is the business of the property that owns
+        // the rule; this check is about order)
+        let twin_at_rank = tout.err().map(|e| libi::classify(e).iter().any(|r| r.precedence() == min_rule.precedence())).unwrap_or(false);
+        if !twin_at_rank {
+            out.probe("twin_not_reported_at_its_rank_unasserted");
+            return;
+        }
         out.probe("precedence_twin_compared");
         if sig(&dout) != sig(&tout) {
             out.violate(
